@@ -18,19 +18,149 @@ Proof. vm_compute. reflexivity. Qed.
 
 (* --- clause 2: at most 7 / 16 significant digits *)
 Lemma decimal_bound_Single b : buf_ok Single_consts b -> f_zero b = false ->
-  exists num e10, f_decimal Single_consts b = Ok (num, e10) /\ Z.abs num < 10 ^ 7.
+  exists num e10, f_decimal Single_consts b = Ok (num, e10) /\ Z.abs num < 10 ^ 7 /\ -50 <= e10 <= 36.
 Proof.
   intros Hb Hz.
-  apply (decimal_bound Single_consts Single_ok ten_Single 152 2559999744 148 4095999744
+  destruct (decimal_bound Single_consts Single_ok ten_Single 152 2559999744 148 4095999744
            ltac:(vm_compute; reflexivity) ltac:(vm_compute; reflexivity)
-           ltac:(unfold den_norm; rewrite hb_Single; lia) b 2 Hb Hz); try (cbn; lia).
+           ltac:(unfold den_norm; rewrite hb_Single; lia) b 2 Hb Hz) as (num & e10 & H1 & H2 & H3); try (cbn; lia).
+  exists num, e10. split; [exact H1|]. split; [exact H2 | lia].
 Qed.
 
 Lemma decimal_bound_Double b : buf_ok Double_consts b -> f_zero b = false ->
-  exists num e10, f_decimal Double_consts b = Ok (num, e10) /\ Z.abs num < 10 ^ 16.
+  exists num e10, f_decimal Double_consts b = Ok (num, e10) /\ Z.abs num < 10 ^ 16 /\ -60 <= e10 <= 26.
 Proof.
   intros Hb Hz.
-  apply (decimal_bound Double_consts Double_ok ten_Double 182 10239999999999999744 178 16383999999999999744
+  destruct (decimal_bound Double_consts Double_ok ten_Double 182 10239999999999999744 178 16383999999999999744
            ltac:(vm_compute; reflexivity) ltac:(vm_compute; reflexivity)
-           ltac:(unfold den_norm; rewrite hb_Double; lia) b 0 Hb Hz); try (cbn; lia).
+           ltac:(unfold den_norm; rewrite hb_Double; lia) b 0 Hb Hz) as (num & e10 & H1 & H2 & H3); try (cbn; lia).
+  exists num, e10. split; [exact H1|]. split; [exact H2 | lia].
 Qed.
+
+(* --- the limits of to_decimal, per format *)
+Lemma top_Single : mbf_denormalise Single_consts (c_lim_top Single_consts) = (152, 2559999744, false).
+Proof. vm_compute. reflexivity. Qed.
+Lemma bot_Single : mbf_denormalise Single_consts (c_lim_bot Single_consts) = (148, 4095999744, false).
+Proof. vm_compute. reflexivity. Qed.
+Lemma top_Double : mbf_denormalise Double_consts (c_lim_top Double_consts) = (182, 10239999999999999744, false).
+Proof. vm_compute. reflexivity. Qed.
+Lemma bot_Double : mbf_denormalise Double_consts (c_lim_bot Double_consts) = (178, 16383999999999999744, false).
+Proof. vm_compute. reflexivity. Qed.
+
+Lemma lims_Single : den_norm Single_consts 2559999744 /\ den_norm Single_consts 4095999744 /\ 1 <= 148 /\ 148 + 4 <= 152 /\ 152 <= 255.
+Proof. unfold den_norm. rewrite hb_Single. lia. Qed.
+Lemma lims_Double : den_norm Double_consts 10239999999999999744 /\ den_norm Double_consts 16383999999999999744 /\ 1 <= 178 /\ 178 + 4 <= 182 /\ 182 <= 255.
+Proof. unfold den_norm. rewrite hb_Double. lia. Qed.
+
+(* to_decimal of an integer-valued number below 10^digits: no rounding anywhere *)
+Lemma to_decimal_int_Single b n : buf_ok Single_consts b -> f_sval Single_consts b = n * 2 ^ 152 -> n <> 0 ->
+  Z.abs n < 10 ^ 7 ->
+  exists j, 0 <= j /\ f_to_decimal Single_consts b = Ok (n * 10 ^ j, - j) /\ 10 ^ 6 <= Z.abs n * 10 ^ j < 10 ^ 7.
+Proof.
+  apply (to_decimal_int Single_consts Single_ok 152 2559999744 148 4095999744 top_Single bot_Single lims_Single).
+  - cbn. lia.
+  - rewrite hb_Single. cbn. lia.
+  - intros V HV. change (c_digits Single_consts) with 7 in HV. change (c_bias Single_consts) with 152.
+    assert (0 < 2 ^ 152) by (apply Z.pow_pos_nonneg; lia). nia.
+  - intros V HV. change (c_digits Single_consts - 1) with 6. change (c_bias Single_consts) with 152.
+    replace (2 ^ 152) with (16 * 2 ^ 148) by (vm_compute; reflexivity).
+    assert (0 < 2 ^ 148) by (apply Z.pow_pos_nonneg; lia). change (10 ^ 6) with 1000000. split; intros; nia.
+Qed.
+
+Lemma to_decimal_int_Double b n : buf_ok Double_consts b -> f_sval Double_consts b = n * 2 ^ 184 -> n <> 0 ->
+  Z.abs n < 10 ^ 16 ->
+  exists j, 0 <= j /\ f_to_decimal Double_consts b = Ok (n * 10 ^ j, - j) /\ 10 ^ 15 <= Z.abs n * 10 ^ j < 10 ^ 16.
+Proof.
+  apply (to_decimal_int Double_consts Double_ok 182 10239999999999999744 178 16383999999999999744 top_Double bot_Double lims_Double).
+  - cbn. lia.
+  - rewrite hb_Double. cbn. lia.
+  - intros V HV. change (c_digits Double_consts) with 16 in HV. change (c_bias Double_consts) with 184.
+    replace (2 ^ 184) with (4 * 2 ^ 182) by (vm_compute; reflexivity).
+    assert (0 < 2 ^ 182) by (apply Z.pow_pos_nonneg; lia). change (10 ^ 16) with 10000000000000000 in HV. nia.
+  - intros V HV. change (c_digits Double_consts - 1) with 15. change (c_bias Double_consts) with 184.
+    replace (2 ^ 184) with (64 * 2 ^ 178) by (vm_compute; reflexivity).
+    assert (0 < 2 ^ 178) by (apply Z.pow_pos_nonneg; lia). change (10 ^ 15) with 1000000000000000. split; intros; nia.
+Qed.
+
+(* ------------------------------------------------------------------------------------------------ *)
+(* Float.to_str *)
+
+Lemma fmt_cases F : is_fmt F -> fmt_ok (d_C F) /\ fmt_str_ok F /\
+  (forall b, buf_ok (d_C F) b -> f_zero b = false ->
+     exists num e10, f_decimal (d_C F) b = Ok (num, e10) /\ Z.abs num < 10 ^ c_digits (d_C F) /\ -60 <= e10 <= 36).
+Proof.
+  intros [->| ->].
+  - split; [exact Single_ok|]. split; [exact Single_str_ok|]. intros b Hb Hz.
+    destruct (decimal_bound_Single b Hb Hz) as (num & e10 & H1 & H2 & H3). exists num, e10. repeat split; try assumption; lia.
+  - split; [exact Double_ok|]. split; [exact Double_str_ok|]. intros b Hb Hz.
+    destruct (decimal_bound_Double b Hb Hz) as (num & e10 & H1 & H2 & H3). exists num, e10. repeat split; try assumption; lia.
+Qed.
+
+(* clause 2: every float prints, with at most `digits` significant digits *)
+Theorem to_str_digits F b ls ts : is_fmt F -> buf_ok (d_C F) b ->
+  exists s, f_to_str F b ls ts = Ok s /\ printed_sig_digits s <= c_digits (d_C F).
+Proof.
+  intros HF Hb. destruct (fmt_cases F HF) as (HC & HS & Hdec).
+  unfold f_to_str. rewrite is_zero_spec. destruct (f_zero b) eqn:Hz.
+  - eexists. split; [reflexivity|]. destruct HF as [->| ->]; destruct ls, ts; vm_compute; discriminate.
+  - destruct (Hdec b Hb Hz) as (num & e10 & Hd & Hnum & _). rewrite Hd. cbn [bind fst snd].
+    eexists. split; [reflexivity|].
+    apply (str_of_decimal_sig F (sign_str (mbf_is_negative (d_C F) b) ls) num e10 ts HS (sign_plain _ _) Hnum).
+Qed.
+
+(* clause 1, printing: an integer value below 10^digits prints as exactly its digits *)
+Theorem to_str_int F b n ls ts : is_fmt F -> buf_ok (d_C F) b ->
+  f_sval (d_C F) b = n * 2 ^ c_bias (d_C F) -> n <> 0 -> Z.abs n < 10 ^ c_digits (d_C F) ->
+  f_to_str F b ls ts = Ok (sign_str (n <? 0) ls ++ dec_str (Z.abs n) ++ (if ts then d_sigil F else [])).
+Proof.
+  intros HF Hb Hval Hn0 Hnd. destruct (fmt_cases F HF) as (HC & HS & _).
+  assert (Hint : exists j, 0 <= j /\ f_to_decimal (d_C F) b = Ok (n * 10 ^ j, - j) /\
+                           10 ^ (c_digits (d_C F) - 1) <= Z.abs n * 10 ^ j < 10 ^ c_digits (d_C F)).
+  { destruct HF as [->| ->]; [apply to_decimal_int_Single | apply to_decimal_int_Double]; assumption. }
+  destruct Hint as (j & Hj & Hdec & Hrange).
+  assert (Hz : f_zero b = false).
+  { destruct (f_zero b) eqn:E; [|reflexivity]. unfold f_sval in Hval. rewrite E in Hval.
+    assert (0 < 2 ^ c_bias (d_C F)) by (apply Z.pow_pos_nonneg; [lia | rewrite (ok_bias _ HC); pose proof (mbits_ge _ HC); lia]). nia. }
+  assert (Hneg : mbf_is_negative (d_C F) b = (n <? 0)).
+  { rewrite (is_negative_spec _ _ HC Hb). unfold f_sval in Hval. rewrite Hz in Hval.
+    pose proof (f_man_bound (d_C F) b HC) as Hm. pose proof (mbits_ge _ HC).
+    assert (0 < 2 ^ (mbits (d_C F) - 1)) by (apply Z.pow_pos_nonneg; lia).
+    assert (0 < 2 ^ f_exp b) by (apply Z.pow_pos_nonneg; [lia | pose proof (f_exp_bound _ _ HC Hb); lia]).
+    assert (0 < 2 ^ c_bias (d_C F)) by (apply Z.pow_pos_nonneg; [lia | rewrite (ok_bias _ HC); lia]).
+    destruct (f_neg (d_C F) b), (Z.ltb_spec n 0); try reflexivity; nia. }
+  unfold f_to_str. rewrite is_zero_spec, Hz. unfold f_decimal. rewrite Hdec. cbn [bind fst snd].
+  unfold mbf_to_str_carry.
+  assert (Habs : Z.abs (n * 10 ^ j) = Z.abs n * 10 ^ j).
+  { rewrite Z.abs_mul. assert (0 < 10 ^ j) by (apply Z.pow_pos_nonneg; lia). lia. }
+  rewrite Habs. destruct (Z.geb_spec (Z.abs n * 10 ^ j) (10 ^ c_digits (d_C F))) as [|_]; [lia|].
+  cbn [fst snd]. rewrite (str_of_decimal_int F n j ts HS Hn0 Hj Hrange), Hneg. reflexivity.
+Qed.
+
+(* ------------------------------------------------------------------------------------------------ *)
+(* the scaling steps, per format (value of a den = man * 2^(exp - bias - 8)) *)
+
+Lemma fmt_ten F : is_fmt F -> fmt_ok (d_C F) /\ mbf_denormalise (d_C F) (c_ten (d_C F)) = (132, 320 * hb (d_C F), false).
+Proof. intros [->| ->]; [split; [exact Single_ok | exact ten_Single] | split; [exact Double_ok | exact ten_Double]]. Qed.
+
+(* one division by ten: the result is below the exact quotient by at most two units of its last guard bit *)
+Theorem div10_step F e m neg : is_fmt F -> den_norm (d_C F) m ->
+  exists e' m', mbf_div10_den (d_C F) (e, m, neg) = Ok (e', m', neg) /\ den_norm (d_C F) m' /\
+    ((e' = e - 3 /\ 5 * m' < 4 * m <= 5 * m' + 5) \/ (e' = e - 4 /\ 5 * m' < 8 * m <= 5 * m' + 10)).
+Proof. intros HF Hm. destruct (fmt_ten F HF) as [HC Hten]. exact (div10_spec (d_C F) HC Hten e m neg Hm). Qed.
+
+(* one multiplication by ten: within one unit of the last guard bit of the result *)
+Theorem mul10_step F e m neg : is_fmt F -> 0 <= e -> den_norm (d_C F) m ->
+  exists e' m', mbf_mul10_den (d_C F) (e, m, neg) = (e', m', neg) /\ den_norm (d_C F) m' /\
+    ((e' = e + 3 /\ -4 < 4 * m' - 5 * m < 4) \/ (e' = e + 4 /\ -8 < 8 * m' - 5 * m < 8)).
+Proof. intros HF He Hm. destruct (fmt_ten F HF) as [HC _]. exact (mul10_spec (d_C F) HC e m neg He Hm). Qed.
+
+(* the carry rounding: to the nearest multiple of 256 (half a unit of the last mantissa bit) *)
+Theorem carry_step F e m neg : is_fmt F -> den_norm (d_C F) m ->
+  exists e' m', mbf_apply_carry_den (d_C F) (e, m, neg) = (e', m', neg) /\ den_norm (d_C F) m' /\ m' mod 256 = 0 /\
+    ((e' = e /\ m' = 256 * ((m + 128) / 256)) \/ (e' = e + 1 /\ m' = 256 * hb (d_C F) /\ 512 * hb (d_C F) - 128 <= m)).
+Proof. intros HF Hm. destruct (fmt_ten F HF) as [HC _]. exact (apply_carry_spec (d_C F) HC e m neg Hm). Qed.
+
+(* the loops of to_decimal run a bounded number of times: the decimal exponent stays in the exponent range *)
+Theorem decimal_exp_range F b : is_fmt F -> buf_ok (d_C F) b -> f_zero b = false ->
+  exists num e10, f_decimal (d_C F) b = Ok (num, e10) /\ Z.abs num < 10 ^ c_digits (d_C F) /\ -60 <= e10 <= 36.
+Proof. intros HF. destruct (fmt_cases F HF) as (_ & _ & H). exact (H b). Qed.
